@@ -13,8 +13,8 @@ use serde_json::json;
 
 pub struct C07;
 
-const OFF_SPELLINGS: &[&str] = &["{pasfmt off}", "// pasfmt off", "//pasfmt   OFF", "(* PasFmt Off *)", "{ pasfmt off: keep this }", "// pasfmt off because reasons", "{\tpasfmt\toff\t}", "(*pasfmt off*)"];
-const ON_SPELLINGS: &[&str] = &["{pasfmt on}", "// pasfmt on", "(*pasfmt ON*)", "{ PASFMT  on }", "//pasfmt on again"];
+const OFF_SPELLINGS: &[&str] = &["{pasfmt off}", "// pasfmt off", "//pasfmt   OFF", "(* PasFmt Off *)", "{ pasfmt off: keep this }", "// pasfmt off because reasons", "{\tpasfmt\toff\t}", "(*pasfmt off*)", "// pasfmt off\u{3000}because", "{pasfmt off\u{2014}see above}", "(* pasfmt off\u{ff1a}reason *)"];
+const ON_SPELLINGS: &[&str] = &["{pasfmt on}", "// pasfmt on", "(*pasfmt ON*)", "{ PASFMT  on }", "//pasfmt on again", "// pasfmt on\u{3000}again", "{ pasfmt on\u{2014} }"];
 /// comments that look like toggles but are not (the words must be exactly pasfmt + on/off)
 const LOOKALIKES: &[&str] = &["{pasfmt offx}", "// pasfmtoff", "{ pasfmt }", "// pasfmt of", "{ xpasfmt off }", "// not pasfmt off", "{pasfmt_off}", "(* pasfmt onn *)", "{ pasfmt\u{3000}off }", "{$pasfmt off}"];
 
